@@ -279,6 +279,8 @@ class Exec:
                 node = None
             if isinstance(node, ast.FunctionDef):
                 return Closure(node, Env(), e.id, cls=None, module=mod)
+            if isinstance(node, ast.ClassDef) and e.id in self.classes:       # the class itself, named inside one of its own methods (Util.helper(...))
+                return ClassRef(e.id)
             # a module-level compiled pattern (NAME = re.compile(<literal>)): the real pattern object behind a model (pyvc/pyregex.py)
             try:
                 from . import pyregex as _pyregex
